@@ -155,7 +155,7 @@ func c16Build(t testing.TB, r *vreport.Report, sc c16Scenario) vsched.Scenario {
 
 	docRevFor := func(docID string) DocumentRevision {
 		cv := c16CV(docID)
-		body, hist, ch, _, _, deleted, _, revid, hlv, err := revCacheLoaderForCv(ctx, &c16Store{docs: store.docs, loads: map[string]int{}}, IDandCV{DocID: docID, Source: cv.SourceID, Version: cv.Value}, false)
+		body, hist, ch, _, _, deleted, _, revid, hlv, err := revCacheLoaderForCv(ctx, store, IDandCV{DocID: docID, Source: cv.SourceID, Version: cv.Value}, false)
 		if err != nil {
 			t.Fatalf("docRevFor: %v", err)
 		}
@@ -508,8 +508,25 @@ func TestVerifC16(t *testing.T) {
 			r.Cap("time budget reached before all scenarios were explored")
 			break
 		}
+		if n := vsched.FreeRuns(); n > 0 {
+			// race-detector pass: the same thread bodies, free-running, in a binary built with -race
+			for k := 0; k < n; k++ {
+				if v := vsched.FreeRun(c16Build(t, r, sc)); len(v) > 0 {
+					r.Add("free_run_oracle_violations_not_replayable", 1)
+				}
+				r.Add("free_running_executions", 1)
+				r.Add("evaluations", 1)
+			}
+			r.Add("scenarios", 1)
+			continue
+		}
 		vsched.Explore(r, mk(sc, bound))
 		r.Add("scenarios", 1)
+	}
+	if vsched.FreeRuns() > 0 {
+		r.Add("distinct_nontrivial", r.Get("scenarios"))
+		r.Sample(map[string]any{"free_running_repetitions_per_scenario": vsched.FreeRuns()})
+		return
 	}
 	r.Add("distinct_nontrivial", r.Get("schedules"))
 }
